@@ -574,6 +574,26 @@ class Engine:
             return self.str_join(st, recv, args[0])
         if name == 'isidentifier':
             return VBool(z3.Function('$isidentifier', S, B)(s))
+        if name == 'lstrip':
+            # result = s[k:], k = length of the longest prefix made of the strip characters
+            if args:
+                cs = args[0].lit()
+                if cs is None:
+                    raise OutOfSubset('lstrip with a symbolic character set')
+                inset = lambda c: z3.Or([c == z3.StringVal(x) for x in cs])     # noqa
+            else:
+                isspace = z3.Function('$isspace', S, B)                        # str.isspace of one character (Unicode)
+                inset = lambda c: isspace(c)                                   # noqa
+                for x in ' \t\n\r\x0b\x0c\x1c\x1d\x1e\x1f\x85\xa0\u2028\u2029\u3000':
+                    st.assume(isspace(z3.StringVal(x)))
+                st.assume(z3.Not(isspace(z3.StringVal('a'))))
+            k = z3.Int(fresh_name('strip'))
+            j = z3.Int(fresh_name('j'))
+            n = z3.Length(s)
+            st.assume(z3.And(0 <= k, k <= n))
+            st.assume(z3.ForAll([j], z3.Implies(z3.And(0 <= j, j < k), inset(z3.SubString(s, j, 1)))))
+            st.assume(z3.Or(k == n, z3.Not(inset(z3.SubString(s, k, 1)))))
+            return VStr(z3.SubString(s, k, n - k))
         raise OutOfSubset('str.%s' % name)
 
     # ---- slice normal form (DESIGN 2.4): G[a:a+n] + G[a+n:a+n+m] is G[a:a+n+m]
